@@ -2769,7 +2769,7 @@ class Group(System):
             d_residuals = self._dresiduals
 
             if mode == 'fwd':
-                if self._has_resid_scaling:
+                if self._has_resid_scaling or self._has_output_scaling:
                     with self._unscaled_context(outputs=[d_outputs], residuals=[d_residuals]):
                         d_outputs.set_vec(d_residuals)
                 else:
@@ -2779,7 +2779,7 @@ class Group(System):
                 d_outputs *= -1.0
 
             else:  # rev
-                if self._has_resid_scaling:
+                if self._has_resid_scaling or self._has_output_scaling:
                     with self._unscaled_context(outputs=[d_outputs], residuals=[d_residuals]):
                         d_residuals.set_vec(d_outputs)
                 else:
